@@ -260,6 +260,65 @@ func c07Eval(c *fw.Ctx, data any) {
 				}
 			}
 		}
+		// amplification: a container filled to the frame limit with copies of one small hostile unit - a bucket header
+		// followed by a Nicira / standard action header that claims a huge length. Decoders that allocate from a
+		// claimed length before checking it, or containers that carry on after an element failed, multiply the cost.
+		for sub := int(k % 8); sub < 50; sub += 8 {
+			for _, claim := range []uint16{0xfff8, 0x8000, 0x0400, 24} {
+				nx := make([]byte, 16)
+				binary.BigEndian.PutUint16(nx[0:], 0xffff)
+				binary.BigEndian.PutUint16(nx[2:], claim)
+				binary.BigEndian.PutUint32(nx[4:], 0x2320)
+				binary.BigEndian.PutUint16(nx[8:], uint16(sub))
+				std := make([]byte, 16)
+				binary.BigEndian.PutUint16(std[0:], uint16(sub%28))
+				binary.BigEndian.PutUint16(std[2:], claim)
+				for _, act := range [][]byte{nx, std} {
+					// two bucket headers: a plain one, and one whose 16 bytes also read as two harmless 8-byte actions
+					// (dec-nw-ttl, copy-ttl-out), so that a decoder that is out of step after a failed bucket finds
+					// its way to the next hostile action instead of stopping
+					plain := make([]byte, 16, 32)
+					binary.BigEndian.PutUint16(plain[0:], 32)
+					resync := []byte{0, 24, 0, 8, 0, 0, 0, 0, 0, 11, 0, 8, 0, 0, 0, 0}
+					for _, bucket := range [][]byte{plain, resync} {
+						unit := append(append([]byte(nil), bucket...), act...)
+						// group-mod: header 16 + units
+						gm := make([]byte, 16, 65535)
+						gm[0], gm[1] = 4, 15
+						for len(gm)+len(unit) <= 65535 {
+							gm = append(gm, unit...)
+						}
+						ofFix(gm)
+						if !t.run("tiled", gm) {
+							return
+						}
+					}
+					// packet-out: header 24 + actions
+					po := make([]byte, 24, 65535)
+					po[0], po[1] = 4, 13
+					for len(po)+len(act) <= 65535 {
+						po = append(po, act...)
+					}
+					ofFix(po)
+					binary.BigEndian.PutUint16(po[16:], uint16(len(po)-24))
+					if !t.run("tiled", po) {
+						return
+					}
+					// flow-mod: header 48 + empty match 8 + apply-actions instructions each holding one action
+					fm := make([]byte, 56, 65535)
+					fm[0], fm[1] = 4, 14
+					fm[48+1], fm[48+3] = 1, 4 // match type 1, length 4
+					ins := append([]byte{0, 4, 0, 24, 0, 0, 0, 0}, act...)
+					for len(fm)+len(ins) <= 65535 {
+						fm = append(fm, ins...)
+					}
+					ofFix(fm)
+					if !t.run("tiled", fm) {
+						return
+					}
+				}
+			}
+		}
 		// random bytes behind each valid (version, type) pair
 		for typ := 0; typ < 30; typ++ {
 			for _, n := range []int{8, 16, 24, 32, 40, 56, 64, 72, 128, 1024} {
